@@ -27,6 +27,8 @@ FIXED = [
     ("C06", ["uids_wrong:status_regex_matches_Name_line", "gids_wrong:status_regex_matches_Name_line",
              "num_threads_wrong:status_regex_matches_Name_line"], "fix: uids(), gids() and num_threads() could be spoofed",
      "process named 'Uid:\\t0\\t0\\t0' (live reproducer via prctl(PR_SET_NAME))"),
+    ("C06", ["terminal_wrong:pty_created_after_first_call"], "fix: terminal() returned None for a terminal created after the first call",
+     "get_terminal_map() memoized for the life of the interpreter: a pty allocated later is unknown"),
     ("C07", ["cpu_times_wrong:after_procfs_switch", "cpu_times_exception:TypeError:after_procfs_switch"],
      "fix: cpu_times() kept the field layout of another PROCFS_PATH", "PROCFS_PATH moved to a procfs with another CPU field count and back"),
     ("C10", ["value_mismatch:alternating_perdisk", "total_mismatch:alternating_perdisk", "counter_decreased:alternating_perdisk",
